@@ -89,6 +89,9 @@ class VLoop(asyncio.AbstractEventLoop):
             f.set_exception(e)
         return f
 
+    async def sendfile(self, transport, file, offset=0, count=None, *, fallback=True):
+        raise NotImplementedError("no zero-copy path on the in-memory transport")
+
     def add_signal_handler(self, sig, cb, *a):
         raise NotImplementedError
 
